@@ -106,6 +106,28 @@ CHECKS.update({
              "Bounded: brackets with +-1 coefficients, <=3 brackets, N=2/3."),
 })
 
+CHECKS.update({
+    "C10": dict(
+        text="Term.symmetry (all / only_target / only_contracted) and "
+             "Obj.symmetry on ~400 grammar terms (<=3 objects, incl. "
+             "orbital-energy denominators) x target sets: every reported "
+             "(permutation product, +-1) is verified by permuting the "
+             "assignment of the pointwise value table; exploit_perm_sym on "
+             "sums T + sum_g chi(g) g(T) for every subset (<=3 elements, and "
+             "the full group) of the target permutation group x target-string "
+             "splits x bra-ket symmetry x (anti)symmetric result: re-expanded "
+             "parts equal the input by value; the five sort functions and "
+             "filter_tensor: parts sum to the input and keys are recomputed "
+             "independently.",
+        design="4 C10",
+        note="Trusted: reference interpreter; permutation products read as "
+             "documented for Container.permute. Bounded: 7 generating terms "
+             "for exploit_perm_sym, target groups over ijab / ijk. "
+             "Term.symmetry() over all indices is skipped when an index list "
+             "with multiplicity exceeds 4 entries per space (the library's "
+             "enumeration does not terminate in reasonable time there)."),
+})
+
 NOT_YET = {}
 
 
